@@ -32,6 +32,7 @@ var controlExpectations = []controlExpect{
 	{"R6", "R6:box.Box.index"},
 	{"R7", "R7:box.(*Box).Add"},
 	{"R8", "R8a:box.(*Box).FromJSON"},
+	{"R35", "R35:box.(*Box).Relink"},
 }
 
 func (c *Ctx) controlCtx() *Ctx {
@@ -56,7 +57,7 @@ func controlFor(c *Ctx, rules ...string) *RuleResult {
 	}
 	run := map[string]func(*Ctx) *RuleResult{
 		"R1": ruleR1, "R1b": ruleR1b, "R1c": ruleR1c, "R2a": ruleR2a, "R2b": ruleR2b, "R2c": ruleR2c, "R2d": ruleR2d,
-		"R3": ruleR3, "R4": ruleR4, "R6": ruleR6, "R7": ruleR7, "R8": ruleR8,
+		"R3": ruleR3, "R4": ruleR4, "R6": ruleR6, "R7": ruleR7, "R8": ruleR8, "R35": ruleR35,
 	}
 	out := &RuleResult{Rule: "R0", Title: "CONTROL: each zero-expected rule still fires on the embedded positive example (" + strings.Join(rules, ", ") + ")"}
 	clause := "the rule reports the violation seeded in checker/testdata/positive (a rule that matches nothing passes vacuously forever)"
